@@ -16,8 +16,10 @@ Menus == <<
   << << W(1), F, W(7) >>, << W(16) >>, << W(3), W(2) >> >>,
   << << W(8) >>, << F, W(1) >>, << R(32) >> >>,
   << << W(9), W(9) >>, << W(0), W(7), F >>, << W(1) >> >>,
-  << << W(65535) >>, << W(65536) >>, << W(70000), F >> >> >>
-Kind3 == << "reply", "clone", "reply", "clone", "clone" >>
+  << << W(65535) >>, << W(65536) >>, << W(70000), F >> >>,
+  \* quick-tier boundary menu: one write just above the largest record, against a small writer
+  << << W(65536), W(2) >>, << W(3) >>, << W(0) >> >> >>
+Kind3 == << "reply", "clone", "reply", "clone", "clone", "clone" >>
 
 Mk(prog) == [prog |-> prog, ip |-> 1, phase |-> "idle", rem |-> 0, total |-> 0, done |-> 0]
 
